@@ -254,6 +254,45 @@ where
     Out::Ok(flat_opinion(&acc))
 }
 
+/// fusion over an arbitrary parenthesisation: tokens in postfix order, i < k pushes operand i,
+/// 99 fuses the two topmost entries (left = the deeper one)
+pub fn ftree<T, Idx, V>(style: &str, opk: usize, k: usize, toks: &[usize], x: &[V]) -> Out<V>
+where
+    T: Tab<V> + Container<Idx, Output = V> + Clone + Zeros + FromFn<Idx, V> + IndexMut<Idx>,
+    Idx: Copy,
+    V: Vf,
+{
+    let op = fuse_op(opk);
+    let mut r = Rd::new(x);
+    let ws: Vec<Opinion<T, V>> = (0..k).map(|_| r.opinion()).collect();
+    let mut st: Vec<Opinion<T, V>> = Vec::new();
+    for &t in toks {
+        if t == 99 {
+            let (b, a) = (st.pop(), st.pop());
+            match (a, b) {
+                (Some(mut a), Some(b)) => {
+                    match style {
+                        "own" => a = Fuse::<_, _, Idx>::fuse(&op, &a, &b),
+                        "ref" => a = Fuse::<_, _, Idx>::fuse(&op, a.as_ref(), b.as_ref()),
+                        "assign" => FuseAssign::<_, &Opinion<T, V>, Idx>::fuse_assign(&op, &mut a, &b),
+                        _ => return Out::Bad(format!("ftree: style {style}")),
+                    }
+                    st.push(a);
+                }
+                _ => return Out::Bad("ftree: stack underflow".into()),
+            }
+        } else if t < k {
+            st.push(ws[t].clone());
+        } else {
+            return Out::Bad(format!("ftree: bad token {t}"));
+        }
+    }
+    match st.pop() {
+        Some(w) if st.is_empty() => Out::Ok(flat_opinion(&w)),
+        _ => Out::Bad("ftree: malformed expression".into()),
+    }
+}
+
 // ------------------------------------------- marginal base rate and deduction
 
 pub fn op_mbr<T, U, C, X, Y, V>(_style: &str, x: &[V]) -> Out<V>
